@@ -109,17 +109,49 @@ def _shared_mutable(fn):
     return None
 
 
+def _identity_keyed(fn, table):
+    """text of an `is`/`is not`/id() test against an entry of the table"""
+    for n in walk_no_nested(fn, False):
+        if isinstance(n, ast.Compare) and len(n.ops) == 1:
+            sides = [n.left, n.comparators[0]]
+            tab = [x for x in sides if isinstance(x, ast.Subscript)
+                   and isinstance(x.value, ast.Name) and x.value.id == table]
+            if not tab:
+                tab = [x for x in sides if isinstance(x, ast.Call)
+                       and isinstance(x.func, ast.Attribute)
+                       and x.func.attr == "get" and isinstance(
+                           x.func.value, ast.Name)
+                       and x.func.value.id == table]
+            if not tab:
+                continue
+            if isinstance(n.ops[0], (ast.Is, ast.IsNot)) and not any(
+                    isinstance(x, ast.Constant) for x in sides):
+                return norm(n)
+            if any(isinstance(x, ast.Call) and call_name(x) == "id"
+                   for x in sides):
+                return norm(n)
+        if isinstance(n, ast.Subscript) and isinstance(
+                n.value, ast.Name) and n.value.id == table and isinstance(
+                n.slice, ast.Call) and call_name(n.slice) == "id":
+            return norm(n)
+    return None
+
+
 def find(repo):
     """[(kind, module, qualname, node, detail)] for every memoisation"""
     out = []
     for m in repo.modules.values():
+        # module-level containers; one that starts with entries counts
+        # only when a function stores into it by subscript (a slot table
+        # such as {"key": None, "value": None})
         tables = {n for n, vals in m.assigns.items()
                   if n not in REGISTRIES and n != "__all__" and isinstance(
                       vals[-1], (ast.Dict, ast.List, ast.Set))
-                  and not (isinstance(vals[-1], ast.Dict)
-                           and vals[-1].keys)
                   and not (isinstance(vals[-1], (ast.List, ast.Set))
                            and vals[-1].elts)}
+        prefilled = {n for n in tables
+                     if isinstance(m.assigns[n][-1], ast.Dict)
+                     and m.assigns[n][-1].keys}
         for q, f in m.funcs.items():
             if getattr(f, "_inlined_helper", False):
                 continue
@@ -138,7 +170,8 @@ def find(repo):
                 elif isinstance(n, ast.Call) and isinstance(
                         n.func, ast.Attribute) and n.func.attr in MUT and \
                         isinstance(n.func.value, ast.Name) and \
-                        n.func.value.id in tables:
+                        n.func.value.id in tables and \
+                        n.func.value.id not in prefilled:
                     tgt = n.func.value.id
                 if tgt and not any(x[0] == "table" and x[2] == q
                                    and x[4] == tgt for x in out):
@@ -215,6 +248,14 @@ def rule(ctx, files):
                      f"{m.relpath}:{q} is {what} and hands the same mutable "
                      f"object ({shared}) to every caller: one caller's "
                      f"edits show up in the next caller's result")
+        elif kind == "table" and _identity_keyed(node, detail):
+            ctx.fail(node, f"{m.name}.{q} {what}",
+                     f"{m.relpath}:{q} remembers a result in the "
+                     f"module-level `{detail}` and reuses it when the "
+                     f"argument is the same object ({_identity_keyed(node, detail)}): "
+                     "an array that was refilled in place (or a new object "
+                     "at a recycled address) gets the result computed for "
+                     "the earlier content")
         elif kind == "table":
             raise Undecided(f"{m.relpath}:{q} fills the module-level "
                             f"`{detail}`; cannot tell whether the key "
